@@ -51,6 +51,11 @@ CHECKS = {
         technique="property-based testing through a harness-owned external solver process (strict DIMACS validator, generated reply volume / I/O order / reply grammar) with a reference reply parser",
         text="Argumentation queries through ExternalSatSolver(fake_sat): every DIMACS text validated strictly inside the child; reply volume 20 B-1 MiB via comment padding, v-line widths, read-first/write-first/interleaved I/O, CRLF; models above 64 KiB via 8k-30k argument chains; generated well- and ill-formed replies replayed verbatim and compared with an independent reply parser (Sat(model)/Unsat/Invalid/Unspecified). 20 s per-call watchdog consulting the child's progress log: a blocked write of >64 KiB is a violation, any other expiry is inconclusive.",
         note="trusted: fake_sat validator, reference reply parser; kernel scheduling not enumerated (the harness owns the child's side of the interleaving only)"),
+    "C17": dict(
+        cat="fault_enumeration", ref="4 C17",
+        technique="fault injection enumerated over every SAT-call position of generated queries and dynamic histories (library wrapper, external process, command line)",
+        text="For each generated problem / dynamic history the clean run is validated against the reference semantics and its k SAT calls counted; the query is then re-run for every position 1..k with the backend failing there: Unknown through a SatSolver wrapper, and {silent exit, non-zero exit, status without model, truncated model/status, stray line, s UNKNOWN, abort} through the harness-owned external solver, via ExternalSatSolver and via `crustabri solve --external-sat-solver`. Any returned status/extension/certificate, exit status 0 or answer line on stdout is a violation. All positions are enumerated per generated case; the cases themselves are sampled.",
+        note="trusted: wrappers, fake_sat; positions exhaustive per case, cases generated (<=8 arguments, histories <=40/80 steps)"),
 }
 
 NOT_YET = "check not built yet in this session (work in progress; see DESIGN.md section 4 for the planned check)"
